@@ -1,6 +1,7 @@
 ------------------------------ MODULE MC_Walk ------------------------------
 (* Exhaustive instances of Walk: growth shapes x every subset of pre-positioned residues x rewind depths.   *)
 EXTENDS Walk
+Unlimited == -1
 NoDev == [retryRemovesAll |-> FALSE, noCleanup |-> FALSE, rewindLeavesOne |-> FALSE, rewindResumesLate |-> FALSE]
 DevRetryAll == [NoDev EXCEPT !.retryRemovesAll = TRUE]
 DevNoCleanup == [NoDev EXCEPT !.noCleanup = TRUE]
